@@ -583,6 +583,17 @@ fn c20_cluster_apply(rmask: u8, vmax: u64, known: bool) {
 }
 
 // ---------------------------------------------------------------------------------------------
+// contract stub of the delta computation for message-level budget queries (C07): returns a delta whose
+// serialized length is ANY value in 1..=mtu (what the ser_ub_* / snd_full queries establish for the real one)
+pub(crate) static mut LAST_MTU: usize = 0;
+pub(crate) fn contract_partial_delta(_cs: &ClusterState, _digest: &Digest, mtu: usize, _sched: &HashSet<&ChitchatId>) -> Delta {
+    unsafe { LAST_MTU = mtu; }
+    let len: usize = kani::any();
+    kani::assume(len >= 1 && len <= mtu);
+    rec::delta_with_len(len)
+}
+
+// ---------------------------------------------------------------------------------------------
 // harness declaration macros (instances are generated per run by /verif/vlib/plan.py)
 macro_rules! h_plain { ($name:ident, $unw:expr, $body:expr) => {
     #[kani::proof]
@@ -832,6 +843,9 @@ fn c09_hostile_delta(mask: u8, n_kv: usize, vmax: u64) {
     kani::cover!(st == DeltaStatus::ApplyAfterReset, "reset taken");
     kani::cover!(st == DeltaStatus::Apply, "incremental");
     assert!((a.gc, a.max) >= (rc.gc, rc.max), "C09: hostile delta lowered the frontier (would trip the monotonicity assert in ClusterState::apply_delta)");
+    // the copy must stay a state on which the node's own delta computation does not abort: versions pairwise
+    // distinct and at most max_version (the serializer asserts strictly increasing versions per member)
+    assert!(wf(&a), "C09: hostile delta left the copy with duplicate versions / a version above max_version (the node aborts the next time it computes a delta from it)");
     std::mem::forget(r);
 }
 
